@@ -10,7 +10,8 @@ modes
                                           decimal sums that force the float path of const_inequality, polynomial identities with free
                                           variables (real_norm: t = the code's own normal form of t, textbook identities, perturbations),
                                           equivalences of comparisons (real_eq_comparison), huge constants
-Events: {tid, key, src, goal, acc: [{m, h: [hyps], c: conclusion}] (accepted), rej: [[m, exception class, rejected|raised]]}
+Events: {tid, key, src, goal, acc: [{m, h: [hyps], c: conclusion}] (accepted), rej: [m, ...] (refused with one of the checker's own
+         exceptions), raised: [[m, exception class], ...] (foreign exception)}
 Terms are projected to the applied form of spec/C05_HolArith.tla by reading raw fields only (no Term.__eq__, is_number,
 dest_number, printer or parser: those are under test).  No verdict is computed here.
 """
@@ -157,7 +158,9 @@ class Log:
         ms = self.macros if only is None else [m for m in self.macros if m in only]
         runs = [attempt(m, g) for m in ms]
         ev = {"tid": self.tid, "key": "%s:%s" % (src, d), "src": src, "goal": pg,
-              "acc": [r for r in runs if isinstance(r, dict)], "rej": [r for r in runs if not isinstance(r, dict)]}
+              "acc": [r for r in runs if isinstance(r, dict)],
+              "rej": [r[0] for r in runs if not isinstance(r, dict) and r[2] == "rejected"],
+              "raised": [r[:2] for r in runs if not isinstance(r, dict) and r[2] == "raised"]}
         self.f.write(json.dumps(ev, separators=(",", ":")) + "\n")
         return ev
 
